@@ -631,7 +631,12 @@ fn raw_ok(a: &MT, b: &MT, v: &BigInt) -> bool {
         // KNOWN-FINDING candidate: <i256 as ToPrimitive>::to_i64 (arrow-buffer bigint) checks the i256 high word
         // twice instead of the upper half of the low word: values that fit i128 but not i64 are truncated to their
         // low 64 bits instead of being rejected (Decimal256 -> integer casts). Excluded: |quotient| >= 2^63.
-        (Dec { bits: 256, .. }, Int { .. } | Ts(..) | Dur(_)) => dec256_int_ok(a, v),
+        (Dec { bits: 256, .. }, Int { .. } | Ts(..) | Dur(_)) => dec256_int_ok(a, v) && dec_negscale_int_ok(a, v),
+        // KNOWN-FINDING candidate: decimal with a NEGATIVE scale -> integer multiplies by 10^-s in the decimal's own
+        // native type (cast_decimal_to_integer: array.value(i).mul_checked(div)): Decimal32(3,-8) value -999 stands
+        // for -99_900_000_000, which fits Int64, but the i32 product overflows -> error / null. Excluded: values
+        // whose scaled value leaves the decimal's native width.
+        (Dec { .. }, Int { .. } | Ts(..) | Dur(_)) => dec_negscale_int_ok(a, v),
         _ => true,
     }
 }
@@ -639,6 +644,12 @@ fn raw_ok(a: &MT, b: &MT, v: &BigInt) -> bool {
 fn instant_safe(a: &MT, v: &BigInt) -> bool {
     let secs = match *a { MT::Date32 => v * 86400i64, MT::Date64 => floor_div(v, 1000), MT::Ts(u, _) => floor_div(v, unit_mult(u)), _ => return true };
     secs.abs() <= BigInt::from(TS_SAFE_SECONDS)
+}
+fn dec_negscale_int_ok(a: &MT, v: &BigInt) -> bool {
+    if let MT::Dec { bits, s, .. } = *a {
+        if s < 0 { return (v * pow10((-(s as i32)) as u32)).abs() < pow2(bits - 1); }
+    }
+    true
 }
 fn dec256_int_ok(a: &MT, v: &BigInt) -> bool {
     if let MT::Dec { s, .. } = *a {
@@ -852,7 +863,7 @@ fn gen_inverse(thorough: bool, r: &mut Rng, emit: &mut dyn FnMut(Case)) {
         let cands = candidates(a, b, r, false);
         let ok: Vec<BigInt> = cands.iter().filter(|v| value_ok(a, b, v) && raw_ok(a, b, v) && instant_safe(a, v)).cloned().collect();
         // one value per column so that a single unrepresentable value does not hide the others
-        let per = if thorough { ok.len() } else { ok.len().min(40) };
+        let per = if thorough { ok.len() } else { ok.len().min(24) };
         let mut idx: Vec<usize> = (0..ok.len()).collect();
         for i in 0..idx.len() { let j = i + r.below(idx.len() - i); idx.swap(i, j); }
         for &i in idx.iter().take(per) {
@@ -992,7 +1003,8 @@ fn gen_text(thorough: bool, r: &mut Rng, emit: &mut dyn FnMut(Case)) {
         base.push(dec_string(&(half_up - BigInt::one()), sc as u32 + 1));
         let strs = mutate_num_strings(&base, r);
         emit_parse(&t, &strs, r, emit, &format!("parse/{}", tyclass(&t)));
-        for st in &strs {
+        for (i, st) in strs.iter().enumerate() {
+            if !thorough && i % 2 == 1 { continue; }
             if !st.is_ascii() || st.contains('e') || st.contains('E') || st.len() > 120 { continue; }
             emit(Case::new("c13.parse_decimal", vec![g(bits), g(p), g(sc), gbytes(st.as_bytes())], &["c13.parse_decimal"], format!("parse_decimal/dec{bits}")));
         }
@@ -1062,7 +1074,7 @@ fn dt_class(t: &DataType) -> &'static str {
 }
 /// KNOWN-FINDING candidates: ordered pairs that can_cast_types accepts although cast_with_options refuses EVERY
 /// input, even an empty array (root causes, see the report):
-///  R1 target Dictionary<K, V> with V Boolean / Duration / Interval: can_cast_types only asks whether the source can be
+///  R1 target Dictionary<K, V> with V Null / Boolean / Duration / Interval: can_cast_types only asks whether the source can be
 ///     cast to V, cast_to_dictionary has no packer for V ("Unsupported output type for dictionary packing")
 ///  R2 Interval(YearMonth | DayTime) -> Int64: listed in can_cast_types, no arm in cast_with_options
 ///  R3 Utf8 / LargeUtf8 / Utf8View -> Decimal with a negative scale: refused by cast_string_to_decimal
@@ -1074,7 +1086,7 @@ fn known_inconsistent(_wa: i64, a: &DataType, wb: i64, b: &DataType) -> bool {
     let r2 = matches!(a, Interval(IntervalUnit::YearMonth) | Interval(IntervalUnit::DayTime)) && matches!(b, Int64);
     let r3 = matches!(a, Utf8 | LargeUtf8 | Utf8View) && matches!(b, Decimal32(_, s) | Decimal64(_, s) | Decimal128(_, s) | Decimal256(_, s) if *s < 0);
     let to_dict = wb == 1 || wb == 6;
-    let r1 = to_dict && matches!(b, Boolean | Duration(_) | Interval(_));
+    let r1 = to_dict && matches!(b, Null | Boolean | Duration(_) | Interval(_));
     let r4 = to_dict && match b {
         Date32 | Time32(_) => !can_cast_types(a, &Int32),
         Date64 | Time64(_) | Timestamp(_, _) => !can_cast_types(a, &Int64),
